@@ -25,6 +25,16 @@ class FakePysamModule:
             def close(self):
                 pass
 
+            def get_reference_length(self, r):
+                return self.lengths[self.references.index(r)]
+
+            def __iter__(self):
+                return iter(self._reads)
+
+            mapped = 1
+            unmapped = 0
+            nocoordinate = 0
+
             def fetch(self, contig=None, start=None, stop=None, end=None, until_eof=False):
                 if stop is None:
                     stop = end
